@@ -196,7 +196,10 @@ def generate(rng, tier):
                 for d in ds:
                     yield dict(tag='overflow-all', lines=[L('ymd', 'I:%d' % y, 'I:%d' % m, 'I:%d' % d)])
     # ---- impossible dates and texts outside the claim
-    for s in ['31.04.2000', '29.02.1900', '30/02/2000', '2/30/2000', '14/13/2002', '13/14/2002', '2000-13-01', '2000-02-30', '20000230', '0/1/2000', '1/0/2000']:
+    for s in ['31.04.2000', '29.02.1900', '30/02/2000', '2/30/2000', '14/13/2002', '13/14/2002', '2000-13-01', '2000-02-30', '20000230', '0/1/2000', '1/0/2000',
+              # impossible times of day: dateutil raises (hour must be in 0..23, ...), never a shifted instant
+              '13/01/2000 25:00:00', '13/01/2000 24:00:00', '2/1/2000 10:61:00', '02.01.2000 10:59:60', '2000-01-13T10:61', '2000-01-13 24:00:00',
+              '2000-01-13T23:59:60.000001', '01/13/2000 23:60']:
         for dia in ('uk', 'us'):
             yield dict(tag='impossible-date', lines=[L('str', dia, s_(s))])
     for t in [D(2000, 1, 2, 3, 4, 5, 6), D(2000, 1, 13, 3, 4, 5, 6), D(2000, 12, 1, 23, 59, 59, 999999)]:
